@@ -88,7 +88,7 @@ def run(tier, seed):
         sc1 = c08.edge_scenarios(edges)
         n1, s1, _ = mc.validate(sc1, wd, "edges", rep, 8)
         q = tier == "quick"
-        sc2 = alloc_scenarios(rng, 400 if q else 6000, 10 if q else 16)
+        sc2 = alloc_scenarios(rng, 400 if q else 30000, 10 if q else 16)
         n2, s2, _ = mc.validate(sc2, wd, "alloc", rep, 8 if q else 14)
         kinds = {(a["op"], a.get("len", len(a.get("data", []) if isinstance(a.get("data"), list) else [])) == 0,
                   isinstance(a.get("start"), dict)) for s in sc1 + sc2 for a in s["actions"]}
